@@ -179,6 +179,6 @@ var X500AttrTypesByOid = map[string]string{
 	oid.X500AttrEpcFormat.String():                          "epcFormat",
 	oid.X500AttrEpcInUrn.String():                           "epcInUrn",
 	oid.X500AttrLdapUrl1.String():                           "ldapUrl",
-	oid.X500AttrLdapUrl2.String():                           "ldapUrl",
+	oid.X500AttrLdapUrl2.String():                           "tagLocation",
 	oid.X500AttrOrganizationIdentifier.String():             "organizationIdentifier",
 }
